@@ -120,6 +120,10 @@ UNITS = [
     (IPFILE, "pysrc_listlike_gen.v", "", " Model.PySlice Model.ListLike",
      [(c, m, t) for c in ("IPNetwork", "IPRange") for m, t in (
          ("__len__", {}), ("__getitem__:int", {"index": "int"}), ("__getitem__:slice", {"index": "slice"}))]),
+    # the word functions of netaddr/strategy/__init__.py; a sequence of words is a list of ints
+    ("netaddr/strategy/__init__.py", "pysrc_strategy_gen.v", "strategy_", "",
+     [(None, f, {"words": "list int", "int_val": "int", "word_size": "int", "num_words": "int"}) for f in (
+         "valid_words", "int_to_words", "words_to_int")]),
 ]
 # names imported from netaddr.compat that a unit may read: output file -> {name: (type, Coq term)}; the term must be defined by
 # the modules the unit `Require`s (Model/PySlice.v: ssize_max = sys.maxsize of the 64-bit platform the check runs on).
@@ -425,9 +429,9 @@ class Module:
 class Loop:
     """One translated loop: a Fixpoint emitted before the definition of its function."""
 
-    def __init__(self, name, node, iswhile, params, rty, ir, outcome, elem=None, target=None, lret=False):
+    def __init__(self, name, node, iswhile, params, rty, ir, outcome, elem=None, target=None, lret=False, israng=False):
         self.name, self.node, self.iswhile, self.params, self.rty, self.ir, self.outcome = name, node, iswhile, params, rty, ir, outcome
-        self.elem, self.target, self.lret = elem, target, lret
+        self.elem, self.target, self.lret, self.israng = elem, target, lret, israng
 
     def text(self, fn):
         ps = lambda xs: "".join(" (%s : %s)" % (cn, unparen(coqty(ty, self.node))) for cn, ty in xs)
@@ -442,6 +446,11 @@ class Loop:
                     "  | O => Raise OutOfFuel\n  | S fuel' =>\n    %s\n  end.\n"
                     % (where, self.name, ps(self.params), rt, fn.render(self.ir, "    ", self.outcome)))
         inv, car = self.params
+        if self.israng:
+            return ("(* %s; one iteration per unit of `fuel` = the length of the range *)\nFixpoint %s%s (fuel : nat)%s : %s :=\n"
+                    "  match fuel with\n  | O =>\n    %s\n  | S fuel' =>\n    %s\n  end.\n"
+                    % (where, self.name, ps(inv), ps(car), rt, fn.render(self.ir[0], "    ", self.outcome),
+                       fn.render(self.ir[1], "    ", self.outcome)))
         return ("(* %s; structural on the remaining elements *)\nFixpoint %s%s (xs : list %s)%s : %s :=\n  match xs with\n"
                 "  | [] =>\n    %s\n  | %s :: xs' =>\n    %s\n  end.\n"
                 % (where, self.name, ps(inv), unparen(coqty(self.elem, self.node)), ps(car), rt,
@@ -852,6 +861,20 @@ class Fn:
             return self.listcomp(node, env)
         bad(node, "expression %s" % type(node).__name__)
 
+    def builtin_call(self, node, f, env, nargs):
+        """is node the call f(<nargs positional arguments>) of the builtin f (not shadowed by a local or a module-level name)?"""
+        return (isinstance(node, ast.Call) and isinstance(node.func, ast.Name) and node.func.id == f and f not in env
+                and not self.mod.toplevel(f) and not node.keywords and len(node.args) == nargs)
+
+    def listexpr(self, node, env):
+        """a list-valued expression that is consumed at once (for / enumerate / tuple): reversed(l) is rev l there"""
+        if self.builtin_call(node, "reversed", env, 1):
+            ty, t = self.ex(node.args[0], env)
+            if not is_list(ty):
+                bad(node, "reversed() of %s" % show(ty))
+            return (("list", ty[1]), "(rev %s)" % t)
+        return self.ex(node, env)
+
     def elem_eqb(self, node, ty):
         """the equality (hence hashing) of the elements of a set: IPNetwork.__eq__ compares key() = (version, first, last)"""
         e = ty[1].find().t
@@ -982,6 +1005,11 @@ class Fn:
                 bad(node, "iter_iprange of something other than two IPAddress objects")
             step = self.int_(node.args[2], env) if len(node.args) == 3 else "1"
             return ("iterator", "(ItIprange %s %s %s %s %s)" % (a[0], a[2], b[0], b[2], step))
+        if self.builtin_call(node, "len", env, 1) or self.builtin_call(node, "tuple", env, 1):
+            ty, t = self.listexpr(node.args[0], env) if f.id == "tuple" else self.ex(node.args[0], env)
+            if not is_list(ty):
+                bad(node, "%s() of %s" % (f.id, show(ty)))
+            return ("int", "(Z.of_nat (length %s))" % t) if f.id == "len" else (ty, t)     # a tuple of a list: the same Coq list
         if isinstance(f, ast.Name) and f.id not in env and not self.mod.toplevel(f.id) and f.id in ("sorted", "set", "list"):
             if f.id == "sorted":
                 return self.sorted_(node, env)
@@ -1432,22 +1460,36 @@ class Fn:
             bad(s, "return inside a nested loop")
         name = "%s_loop%d" % (self.cname, self.loopno[id(s)])
         assigned, loads = assigned_names(s.body), loaded_names(([s.test] if iswhile else []) + s.body)
-        it = target = elem = itterm = None
-        iterpre = []
+        it = target = elem = itterm = counter = ccn = None
+        iterpre, israng = [], False
         if not iswhile:
-            if not isinstance(s.target, ast.Name):
-                bad(s, "for loop other than `for <name> in <list>`")
-            if (isinstance(s.iter, ast.Name) and s.iter.id in env and isinstance(env[s.iter.id][0], tuple)
-                    and env[s.iter.id][0][0] in ("list", "iter")):
-                it, (itty, itterm) = s.iter.id, env[s.iter.id]
+            tnode, itexpr = s.target, s.iter
+            if (self.builtin_call(itexpr, "enumerate", env, 1) and isinstance(tnode, ast.Tuple) and len(tnode.elts) == 2
+                    and all(isinstance(x, ast.Name) for x in tnode.elts)):
+                counter, tnode, itexpr = tnode.elts[0].id, tnode.elts[1], itexpr.args[0]   # for i, x in enumerate(xs): i = 0, 1, ..
+                if counter in env or counter in assigned or counter == tnode.id:
+                    bad(s, "enumerate() counter %s is bound before the loop or assigned in it" % counter)
+            if not isinstance(tnode, ast.Name):
+                bad(s, "for loop other than `for <name> in <list>` / `for i, x in enumerate(<list>)` / `for _ in range(n)`")
+            target = tnode.id
+            if self.builtin_call(itexpr, "range", env, 1) and counter is None:
+                # for _ in range(n): n iterations (none for n <= 0); the loop variable itself is not translated
+                if target in loads or target in env:
+                    bad(s, "loop variable %s of range() is read (or bound before)" % target)
+                israng, itterm, elem, target = True, "(Z.to_nat %s)" % self.int_(itexpr.args[0], env), "unit", None
+                iterpre = self.take_pre()
+            elif (isinstance(itexpr, ast.Name) and itexpr.id in env and isinstance(env[itexpr.id][0], tuple)
+                    and env[itexpr.id][0][0] in ("list", "iter")):
+                it, (itty, itterm) = itexpr.id, env[itexpr.id]
             else:                                        # `for x in <expression>`: the list is computed once, before the loop
-                itty, itterm = self.ex(s.iter, env)
+                itty, itterm = self.listexpr(itexpr, env)
                 if not is_list(itty):
                     bad(s, "for loop over %s" % show(itty))
                 iterpre = self.take_pre()
-            target, elem = s.target.id, itty[1].find().t
-            if elem is None or it in assigned or target in env or target in assigned_names(s.body):
-                bad(s, "for loop over a list of unknown element type, or that rebinds its list or its loop variable")
+            if not israng:
+                elem = itty[1].find().t
+                if elem is None or it in assigned or target in env or target in assigned_names(s.body):
+                    bad(s, "for loop over a list of unknown element type, or that rebinds its list or its loop variable")
         later = loaded_names(rest + after)
         carried = [x for x in assigned if x in env and x != target]
         for x in carried:
@@ -1459,7 +1501,7 @@ class Fn:
                 bad(s, "loop reads %s, a %s" % (x, show(env[x][0])))
         live = [x for x in carried if x in later]
         inside = {id(n) for st in s.body for n in ast.walk(st)}      # (an enclosing loop puts this very loop into `after`)
-        if any(isinstance(n, ast.Name) and n.id == target and isinstance(n.ctx, ast.Load) and id(n) not in inside
+        if any(isinstance(n, ast.Name) and n.id in (target, counter) and isinstance(n.ctx, ast.Load) and id(n) not in inside
                for st in rest + after for n in ast.walk(st)):
             bad(s, "loop variable %s read after the loop" % target)
         state = list(STATE[self.recv]) if "self" in loads else []
@@ -1483,7 +1525,8 @@ class Fn:
                 if x not in e:
                     bad(s, "%s may be unbound at the end of the loop body" % x)
                 unify(s, e[x][0], env[x][0], "loop variable %s" % x)
-            args = ["fuel'"] * iswhile + state + [ienv[x][1] for x in inv] + ["xs'"] * (not iswhile) + [e[x][1] for x in carried]
+            args = (["fuel'"] * iswhile + state + [ienv[x][1] for x in inv] + ["fuel'" if israng else "xs'"] * (not iswhile)
+                    + ["(%s + 1)" % ccn] * (counter is not None) + [e[x][1] for x in carried])
             return ("ret", "@loop", "(%s)" % " ".join([name] + args), True)
         ienv["@break"], ienv["@continue"], ienv["@lret"] = result, again, has_ret
         ahead = [s] + rest + after
@@ -1492,11 +1535,13 @@ class Fn:
             ir = self.wrap(self.take_pre(), ("if", c, self.block(s.body, ienv, again, ahead), result(ienv)))
             outcome, ps = True, [(x, "int") for x in state] + params
         else:
-            tcn, benv = self.bind_local(s.target, target, elem, ienv, s.iter)
+            tcn, benv = ("_", ienv) if israng else self.bind_local(s.target, target, elem, ienv, s.iter)
+            if counter is not None:
+                ccn, benv = self.bind_local(s.target, counter, "int", benv)
             ir = (result(ienv), self.block(s.body, benv, again, ahead))
             outcome = any(self.effects(x) for x in ir)
-            ps = ([(x, "int") for x in state] + params[:len(inv)], params[len(inv):])
-        L = Loop(name, s, iswhile, ps, tuple_type([env[x][0] for x in live]), ir, outcome, elem, None if iswhile else tcn, has_ret)
+            ps = ([(x, "int") for x in state] + params[:len(inv)], [(ccn, "int")] * (counter is not None) + params[len(inv):])
+        L = Loop(name, s, iswhile, ps, tuple_type([env[x][0] for x in live]), ir, outcome, elem, None if iswhile else tcn, has_ret, israng)
         if id(s) in self.loopmemo:
             if repr(self.loopmemo[id(s)].ir) != repr(ir):
                 bad(s, "loop reached in two different contexts")
@@ -1504,7 +1549,8 @@ class Fn:
             self.loopmemo[id(s)] = L
             self.loops.append(L)
         # the call
-        args = state + [env[x][1] for x in inv] + ([itterm] if not iswhile else []) + [env[x][1] for x in carried]
+        args = (state + [env[x][1] for x in inv] + ([itterm] if not iswhile else []) + ["0"] * (counter is not None)
+                + [env[x][1] for x in carried])
         if iswhile:
             spec = FUEL.get((self.recv, self.name, self.loopno[id(s)]))
             if spec is None:
@@ -1777,7 +1823,7 @@ def generate():
         text.encode("ascii")
         out[fn] = text
     for t, (fn, ofn, _, req, _) in zip(units, UNITS):
-        uses = sorted({d.file for k in t.order for d in t.done[k].depfns} - {ofn} | {FILES[0]}, key=FILES.index)
+        uses = sorted({d.file for k in t.order for d in t.done[k].depfns} - {ofn}, key=FILES.index)
         fails = failures(t, sorted(t.failed.items(), key=lambda kv: (kv[0][0] or "", kv[0][1])), lambda k: True)
         text = HEAD % (fn, "", req + "".join(" Gen." + u[:-2] for u in uses)) + "\n".join(t.done[k].body_text for k in t.order) + (
             "\n" + fails if fails else "")
